@@ -1491,10 +1491,13 @@ func ruleC07Monotone(c *Ctx) {
 				}
 			case *ssa.Call:
 				key := core.CalleeKey(&x.Call)
-				if key != "builtin.delete" && key != "builtin.clear" {
+				if key != "builtin.delete" && key != "builtin.clear" && !strings.HasPrefix(key, "maps.DeleteFunc") {
 					return
 				}
-				for _, s := range traceSources(x.Call.Args[0]) {
+				if len(x.Call.Args) == 0 {
+					return
+				}
+				for _, s := range append(traceSources(x.Call.Args[0]), x.Call.Args[0]) {
 					if ld, ok := s.(*ssa.UnOp); ok {
 						if fa, ok := ld.X.(*ssa.FieldAddr); ok && c.isPkgNamed(fa.X.Type(), "annotations") {
 							c.R.Bad(rule, core.FuncName(fn)+":"+key, c.pos(x), "members are removed from an annotation set")
